@@ -81,6 +81,14 @@ def usable(sc, si, k):
     return True
 
 
+def natural_form(sc, si, k):
+    """the name a user normally uses for a group/channel topic: the channel name for a channel-enabled topic he is not
+    a group subscriber of (as the driver's seen())"""
+    t = sc.topics[k]
+    u = sc.sessions[si]["user"]
+    return "chn" if (t["kind"] == "chn" and u != t["owner"] and u not in t["members"]) else "grp"
+
+
 def gen_setup(rng, sid, seq=False, model_scope=False):
     sc = Scn(sid)
     sc.seq = seq
@@ -89,8 +97,14 @@ def gen_setup(rng, sid, seq=False, model_scope=False):
     ng = rng.randint(1, 2)
     for g in range(1, ng + 1):
         owner = rng.choice(sc.users)
-        kind = "grp" if (model_scope or rng.random() < 0.8) else "chn"
-        sc.topics[g] = dict(kind=kind, owner=owner, members=list(sc.users) if kind == "grp" else [owner])
+        kind = "grp" if rng.random() < (0.6 if model_scope else 0.8) else "chn"
+        if kind == "grp":
+            members = list(sc.users)
+        elif model_scope:
+            members = [owner] + [u for u in sc.users if u != owner and rng.random() < 0.4]
+        else:
+            members = [owner]
+        sc.topics[g] = dict(kind=kind, owner=owner, members=members)
     if not model_scope:
         for u in sc.users:
             sc.topics[10 + u] = dict(kind="me", owner=u)
@@ -246,6 +260,152 @@ def gen_burst_scn(rng, sid):
     return sc
 
 
+def gen_chan_scn_c14c(rng, sid):
+    """Channel-enabled topics addressed under BOTH names.  One channel-enabled topic (ref 1) whose other users are partly
+    group subscribers (they normally say grpXXX) and partly channel readers (chnXXX), optionally a plain group topic
+    (ref 2); 1-2 of the non-owner sessions have a 2-slot send queue.  Phases: everybody attaches (a share of them under
+    the OTHER name); random mixes of {sub} / {leave} / {leave unsub} under either name, {pub} by the owner, disconnects;
+    slow-consumer phases (writers of the small-queue sessions stalled, the owner publishes 3-4 messages: the third
+    broadcast finds the queue full and the topic drops the session; then the writers resume); idle unloads (alone on
+    their topic); finally every live session re-subscribes under both names.  No step terminates a topic instance in one
+    burst with another request on that topic, so the outcome class on the unchanged tree does not depend on the schedule."""
+    sc = Scn(sid)
+    nu = rng.randint(3, 4)
+    sc.users = list(range(1, nu + 1))
+    owner = rng.choice(sc.users)
+    others = [u for u in sc.users if u != owner]
+    members = [u for u in others if rng.random() < 0.4]
+    if len(members) == len(others):
+        members.remove(rng.choice(members))        # at least one channel reader
+    sc.topics[1] = dict(kind="chn", owner=owner, members=[owner] + members)
+    plain = rng.random() < 0.5
+    if plain:
+        sc.topics[2] = dict(kind="grp", owner=rng.choice(sc.users), members=list(sc.users))
+    for u in sc.users:
+        sc.topics[10 + u] = dict(kind="me", owner=u)
+    si = 0
+    for u in [owner] + others:
+        for _ in range(1 if (u == owner and rng.random() < 0.6) else rng.randint(1, 2)):
+            si += 1
+            sc.sessions[si] = dict(user=u)
+    non_owner = [x for x in sc.sessions if sc.sessions[x]["user"] != owner]
+    slow = []
+    if rng.random() < 0.75:
+        slow = rng.sample(non_owner, min(len(non_owner), rng.randint(1, 2)))
+        for x in slow:
+            sc.sessions[x]["cap"] = 2
+    osess = [x for x in sc.sessions if sc.sessions[x]["user"] == owner]
+    rid = [0]
+
+    def nr():
+        rid[0] += 1
+        return "r%d" % rid[0]
+
+    def other(x):
+        return "grp" if natural_form(sc, x, 1) == "chn" else "chn"
+
+    def form(x, p_other):
+        return other(x) if rng.random() < p_other else natural_form(sc, x, 1)
+
+    gone = set()        # sessions that disconnected
+
+    def mix_request(x):
+        u = sc.sessions[x]["user"]
+        r = rng.random()
+        if plain and r < 0.12:
+            # the plain group topic addressed by a channel name
+            rr = rng.random()
+            if rr < 0.45:
+                return "q %d %s sub 2 0 as=%s" % (x, nr(), "chn" if rng.random() < 0.4 else "grp")
+            if rr < 0.9:
+                return "q %d %s leave 2 0 as=%s" % (x, nr(), "chn" if rng.random() < 0.5 else "grp")
+            return "q %d %s leave 2 1 as=chn" % (x, nr())
+        if r < 0.45:
+            return "q %d %s sub 1 0 as=%s" % (x, nr(), form(x, 0.4))
+        if r < 0.80:
+            return "q %d %s leave 1 0 as=%s" % (x, nr(), form(x, 0.5))
+        if r < 0.88:
+            return "q %d %s leave 1 1 as=%s" % (x, nr(), form(x, 0.5))
+        if r < 0.96:
+            if u == owner:
+                return "q %d %s pub 1" % (x, nr())
+            return "q %d %s sub 1 0 as=%s" % (x, nr(), form(x, 0.5))
+        gone.add(x)
+        return "q %d %s disc" % (x, nr())
+
+    for x in sorted(sc.sessions):
+        sc.bursts.append(["q %d %s sub %d" % (x, nr(), me_of(sc, sc.sessions[x]["user"]))])
+    sc.bursts.append(["q %d %s sub 1" % (x, nr()) for x in osess])
+    sc.bursts.append(["q %d %s sub 1 0 as=%s" % (x, nr(), form(x, 0.3)) for x in non_owner if rng.random() < 0.9])
+    stalled = set()
+    for ph in range(rng.randint(3, 6)):
+        r = rng.random()
+        if r < 0.5:
+            lines = ["i unstall %d" % x for x in sorted(stalled)] if rng.random() < 0.5 else []
+            if lines:
+                stalled.clear()
+            act = [x for x in sc.sessions if x not in gone and rng.random() < 0.65]
+            per = {x: rng.randint(1, 2) for x in act}
+            while any(per.values()):
+                x = rng.choice([y for y, n in per.items() if n > 0])
+                per[x] -= 1
+                if x in gone:
+                    continue
+                lines.append(mix_request(x))
+            if lines:
+                sc.bursts.append(lines)
+        elif r < 0.85 and slow:
+            # slow-consumer phase: the small-queue sessions (re)attach, their writers stall, the owner publishes
+            k = 2 if (plain and rng.random() < 0.3) else 1
+            if k == 1:
+                o = rng.choice(osess)
+            else:
+                o = rng.choice([x for x in sc.sessions if x not in slow] or osess)     # every user may publish in the plain group
+            pre = ["q %d %s sub %d" % (o, nr(), k)] if o not in gone else []
+            if k == 1:
+                pre += ["q %d %s sub 1 0 as=%s" % (x, nr(), form(x, 0.25)) for x in slow if x not in gone and rng.random() < 0.8]
+            else:
+                pre += ["q %d %s sub 2" % (x, nr()) for x in slow if x not in gone and rng.random() < 0.8]
+            if pre:
+                sc.bursts.append(pre)
+            lines = []
+            for x in slow:
+                if x not in gone and x not in stalled:
+                    lines.append("i stall %d" % x)
+                    stalled.add(x)
+            if o not in gone:
+                lines += ["q %d %s pub %d" % (o, nr(), k) for _ in range(rng.randint(3, 4))]
+            if rng.random() < 0.4:
+                act = [x for x in non_owner if x not in gone and x not in slow and rng.random() < 0.5]
+                lines += [mix_request(x) for x in act]
+            sc.bursts.append(lines)
+            lines = ["i unstall %d" % x for x in sorted(stalled)]
+            stalled.clear()
+            if rng.random() < 0.5:
+                lines += [mix_request(x) for x in slow if x not in gone]
+            sc.bursts.append(lines)
+        else:
+            # everybody leaves the channel (under the name attached with or not), then its idle timer fires
+            lines = ["i unstall %d" % x for x in sorted(stalled)]
+            stalled.clear()
+            for x in sorted(sc.sessions):
+                if x not in gone:
+                    lines.append("q %d %s leave 1 0 as=%s" % (x, nr(), form(x, 0.3)))
+                    lines.append("q %d %s leave 1 0 as=%s" % (x, nr(), form(x, 0.5)))
+            sc.bursts.append(lines)
+            sc.bursts.append(["i unload 1"])
+    lines = ["i unstall %d" % x for x in sorted(stalled)]
+    for x in sorted(sc.sessions):
+        if x in gone:
+            continue
+        a = form(x, 0.5)
+        lines.append("q %d %s sub 1 0 as=%s" % (x, nr(), a))
+        lines.append("q %d %s sub 1 0 as=%s" % (x, nr(), "grp" if a == "chn" else "chn"))
+    sc.bursts.append(lines)
+    return sc
+
+
+
 def gen_seq_scn(rng, sid):
     """one request per burst, group topics only, owners delete: the model's alphabet"""
     sc = gen_setup(rng, sid, seq=True, model_scope=True)
@@ -256,7 +416,20 @@ def gen_seq_scn(rng, sid):
             sc.bursts.append(["i unload %d" % rng.choice(list(sc.topics))])
             continue
         si = rng.choice(list(sc.sessions))
-        sc.bursts.append([gen_request(rng, sc, si, "r%d" % n, model_scope=True)])
+        l = gen_request(rng, sc, si, "r%d" % n, model_scope=True)
+        w = l.split()
+        if w[3] in ("sub", "leave"):
+            # the name form.  {sub}: the name the user normally writes (whether thisUserSub accepts the OTHER name depends
+            # on the per-user records, which the model leaves out: a group subscriber who writes chnXXX is told 303;
+            # the burst scenarios exercise that); {leave}: either name; a channel name for a plain group now and then
+            k = int(w[4])
+            nat = natural_form(sc, si, k)
+            if sc.topics[k]["kind"] == "chn":
+                form = nat if (w[3] == "sub" or rng.random() < 0.5) else ("grp" if nat == "chn" else "chn")
+            else:
+                form = "chn" if rng.random() < 0.12 else "grp"
+            l = " ".join(w[:5] + [w[5] if len(w) > 5 else "0", "as=" + form])
+        sc.bursts.append([l])
     return sc
 
 
@@ -308,6 +481,11 @@ def parse_out(text):
             d["foreign"] = [x for x in d.get("sessions", "").split(",") if x.startswith("?")]
             d["sessions"] = set(int(x) for x in d.get("sessions", "").split(",") if x and not x.startswith("?"))
             d["online"] = dict((int(a), int(c)) for a, c in (x.split(":") for x in d.get("online", "").split(",") if x))
+            # sessions attached as channel subscriptions (perSessionData.isChanSub) / users cached as channel readers
+            # (perUserData.isChan), read off the real objects
+            d["haschan"] = "chansess" in d
+            d["chansess"] = set(int(x) for x in d.get("chansess", "").split(",") if x)
+            d["chanusers"] = set(int(x) for x in d.get("chanusers", "").split(",") if x)
             b["topics"][int(w[2])] = d
         elif w[0] == "goroutines":
             b["goroutines"] = int(w[1])
@@ -377,7 +555,9 @@ def requests_of(burst_lines):
     for l in burst_lines:
         w = l.split()
         if w[0] == "q":
-            res.append(dict(si=int(w[1]), rid=w[2], kind=w[3], k=int(w[4]) if len(w) > 4 else None, arg=w[5] if len(w) > 5 else None))
+            res.append(dict(si=int(w[1]), rid=w[2], kind=w[3], k=int(w[4]) if len(w) > 4 else None,
+                            arg=w[5] if len(w) > 5 and not w[5].startswith("as=") else None,
+                            **{"as": ([x[3:] for x in w[5:] if x.startswith("as=")] or [None])[0]}))
     return res
 
 
@@ -443,6 +623,8 @@ def monitor0(sc, r):
     slow = set(si for si, s in sc.sessions.items() if s.get("cap"))
     broken = set()       # sessions whose in-flight semaphore was already reported stuck
     dead = set()         # sessions abandoned inside {del user}
+    chan_dropped = {}    # (chn topic, user) -> upper bound of the sessions attached under the channel name that were dropped
+    mismatch_left = {}   # (chn topic, user) -> number of {leave} requests answered 404 = detached on the name-form mismatch path
     nleaked = 0
     for bi, b in enumerate(r["bursts"]):
         lines = sc.bursts[bi] if bi < len(sc.bursts) else []
@@ -513,8 +695,20 @@ def monitor0(sc, r):
                 continue
             got = ctrl.get((q["si"], q["rid"]), [])
             st = b["sess"].get(q["si"], {})
+            if q["kind"] == "leave" and q["arg"] != "1" and sc.topics.get(q["k"], {}).get("kind") == "chn" and (
+                    404 in got or (not got and (st.get("closed") or st.get("term") or q["si"] in slow or q["si"] in stalled))):
+                # handleLeaveRequest answers 404 to a {leave} of a channel-enabled topic only on the path where the name
+                # form of the request (grpXXX / chnXXX) differs from the form the session attached under: the session
+                # HAS been detached (remSession, delSub) and the function returned before the per-user accounting.
+                # (a reply that was dropped by design - closing session, full queue - is counted as a possible 404)
+                key = (q["k"], sc.sessions[q["si"]]["user"])
+                mismatch_left[key] = mismatch_left.get(key, 0) + 1
             if len(got) > 1:
-                res.append(("reply-duplicated", bi, "request %s (%s) of session %d answered %d times: %s" % (q["rid"], q["kind"], q["si"], len(got), got)))
+                plain_as_chn = (q["kind"] == "leave" and q.get("as") == "chn" and sc.topics.get(q["k"], {}).get("kind") == "grp"
+                                and len(got) == 2 and got[0] == 404)
+                res.append(("leave-chn-name-on-plain-group-answered-twice" if plain_as_chn else "reply-duplicated", bi,
+                            "request %s (%s%s) of session %d answered %d times: %s" % (
+                                q["rid"], q["kind"], (" addressed as " + q["as"] + "XXX") if q.get("as") else "", q["si"], len(got), got)))
             nonowner_del = bool(q.get("nonowner"))
             if q["kind"] not in EXPECT_REPLY or got:
                 continue
@@ -575,6 +769,16 @@ def monitor0(sc, r):
             if b["unstuck"] or b["parked"] or b["abandoned"] or b.get("unblocked_stop") or b.get("parked_purge"):
                 continue      # diagnosed above
             res.append(("hang", bi, h[:1500]))
+        # ---- sessions that were attached to a channel-enabled topic under its CHANNEL name and are not attached any more
+        for k, t in b["topics"].items():
+            if sc.topics.get(k, {}).get("kind") != "chn":
+                continue
+            was = set(prev["topics"].get(k, {}).get("chansess", ())) if prev else set()
+            was |= set(q["si"] for q in reqs if q["kind"] == "sub" and q["k"] == k and (q.get("as") or natural_form(sc, q["si"], k)) == "chn")
+            for si in was:
+                if not (t["loaded"] and si in t["sessions"]):
+                    key = (k, sc.sessions[si]["user"])
+                    chan_dropped[key] = chan_dropped.get(key, 0) + 1
         # ---- state at quiescence
         for si, st in b["sess"].items():
             live = st["term"] == 0
@@ -604,8 +808,23 @@ def monitor0(sc, r):
                 elif have < 0:
                     res.append(("online-count-negative", bi, "topic %d: online count of user %d is %d" % (k, u, have)))
                 elif have != cnt.get(u, 0):
-                    chan = sc.topics[k]["kind"] == "chn" and u != sc.topics[k]["owner"] and u not in sc.topics[k]["members"] and have > cnt.get(u, 0)
-                    res.append(("online-count-chan-reader" if chan else "online-count", bi, "topic %d: online count of user %d is %d, attached sessions %d" % (k, u, have, cnt.get(u, 0))))
+                    over = have - cnt.get(u, 0)
+                    if t.get("haschan"):
+                        # exact: the per-user record says "channel reader" (perUserData.isChan)
+                        chan = sc.topics[k]["kind"] == "chn" and u in t["chanusers"] and over > 0
+                    else:
+                        chan = sc.topics[k]["kind"] == "chn" and u != sc.topics[k]["owner"] and u not in sc.topics[k]["members"] and over > 0
+                    # a subscriber (not a reader) whose {leave} was answered 404 on the name-form mismatch path: same early
+                    # return of handleLeaveRequest; at most one count per such {leave}
+                    # a subscriber (not cached as a reader) one of whose sessions was attached under the CHANNEL name and
+                    # was dropped (disconnect, slow consumer, mismatching {leave}): the same early return; at most one
+                    # count per such session / per {leave} answered 404
+                    if not chan and sc.topics[k]["kind"] == "chn" and 0 < over <= chan_dropped.get((k, u), 0):
+                        chan = True
+                    mism = (not chan) and sc.topics[k]["kind"] == "chn" and 0 < over <= chan_dropped.get((k, u), 0) + mismatch_left.get((k, u), 0)
+                    law = "online-count-chan-reader" if chan else "online-count-leave-name-mismatch" if mism else "online-count"
+                    res.append((law, bi, "topic %d: online count of user %d is %d, attached sessions %d%s" % (
+                        k, u, have, cnt.get(u, 0), (" (%d {leave} of this user answered 404 = name form differs from the form attached under)" % mismatch_left.get((k, u), 0)) if mism else "")))
         # ---- deletion
         for q in reqs:
             if q["kind"] == "sub" and q["k"] in deleted:
@@ -638,7 +857,11 @@ def monitor0(sc, r):
                         continue
                     if str(k) in gone.get(si, ()) or str(k) in evicted.get(si, ()):
                         continue
-                    reader = sc.topics[k]["kind"] == "chn" and u != sc.topics[k]["owner"] and u not in sc.topics[k]["members"]
+                    pt = prev["topics"].get(k, {})
+                    if pt.get("haschan"):
+                        reader = si in pt["chansess"]      # exact: the session was attached as a channel subscription
+                    else:
+                        reader = sc.topics[k]["kind"] == "chn" and u != sc.topics[k]["owner"] and u not in sc.topics[k]["members"]
                     on_me = mek is not None and mek in st0["subs"] and mek in st1["subs"]
                     if reader:
                         law = "deleted-told-gone-chan-reader"
@@ -692,13 +915,17 @@ def model_lines(sc):
     for si, s in sorted(sc.sessions.items()):
         out.append("sess %d %d" % (si, s["user"]))
     for k, t in sorted(sc.topics.items()):
-        out.append("topic %d %d" % (k, t["owner"]))
+        out.append("topic %d %d %d" % (k, t["owner"], 1 if t["kind"] == "chn" else 0))
     for b in sc.bursts:
         w = b[0].split()
         if w[0] == "i":
             out.append("op unload %s" % w[2])
         else:
-            out.append("op %s %s %s %s %s" % (w[3], w[1], w[2][1:], w[4] if len(w) > 4 else "0", w[5] if len(w) > 5 else "0"))
+            q = requests_of(b)[0]
+            form = "grp"
+            if q["k"] is not None and q["kind"] in ("sub", "leave"):
+                form = q.get("as") or natural_form(sc, q["si"], q["k"])     # the name the driver writes
+            out.append("op %s %s %s %s %s %s" % (w[3], w[1], w[2][1:], w[4] if len(w) > 4 else "0", q["arg"] or "0", form))
     out.append("end")
     return out
 
@@ -712,8 +939,9 @@ def impl_projection(sc, r):
         tat = sorted((k, si) for k, t in b["topics"].items() if t["loaded"] for si in t["sessions"])
         top = sorted((k, int(t["loaded"]), int(t["stored"])) for k, t in b["topics"].items())
         term = sorted(si for si, st in b["sess"].items() if st["term"])
+        cat = sorted((k, si) for k, t in b["topics"].items() if t["loaded"] for si in t["chansess"])
         res.append({"replies": [list(x) for x in fr], "subs": [list(x) for x in att], "sessions": [list(x) for x in tat],
-                    "topics": [list(x) for x in top], "terminated": term})
+                    "chansess": [list(x) for x in cat], "topics": [list(x) for x in top], "terminated": term})
     return res
 
 
@@ -728,13 +956,15 @@ def parse_model(lines):
             cur = []
             res[w[1]] = cur
         elif w[0] == "op":
-            cur.append({"replies": [], "subs": [], "sessions": [], "topics": [], "terminated": []})
+            cur.append({"replies": [], "subs": [], "sessions": [], "chansess": [], "topics": [], "terminated": []})
         elif w[0] == "f":
             cur[-1]["replies"].append([int(w[1]), w[2], int(w[3]), w[4] if len(w) > 4 else ""])
         elif w[0] == "sub":
             cur[-1]["subs"].append([int(w[1]), int(w[2])])
         elif w[0] == "att":
             cur[-1]["sessions"].append([int(w[1]), int(w[2])])
+        elif w[0] == "catt":
+            cur[-1]["chansess"].append([int(w[1]), int(w[2])])
         elif w[0] == "topic":
             cur[-1]["topics"].append([int(w[1]), int(w[2]), int(w[3])])
         elif w[0] == "term":
@@ -776,6 +1006,7 @@ def run(ctx):
                     csc.allowed = list(rp.get("outcomes", []))
                     bursts.append(csc)
         bursts += [gen_burst_scn(rng, "b%d" % i) for i in range(120 if quick else 1500)]
+        bursts += [gen_chan_scn_c14c(rng, "h%d" % i) for i in range(60 if quick else 800)]
         seqs = [gen_seq_scn(rng, "s%d" % i) for i in range(150 if quick else 1500)]
     t0 = time.time()
     results, logs = run_driver(ctx, bursts + seqs)
@@ -825,7 +1056,9 @@ def run(ctx):
                 if k >= len(ip) or k >= len(mp) or ip[k] != mp[k]:
                     mism.append((sc, k, {"impl": ip[k] if k < len(ip) else None, "model": mp[k] if k < len(mp) else None}))
                     break
-        if mism and not fails:
+        known = set(f["key"] for f in ctx.load_findings() if f["property"] == ctx.pid)
+        if mism and not [law for law in fails if law not in known]:
+            # (a law failure that is not a known finding is the better report: it comes with its own replay)
             sc, k, d = min(mism, key=lambda x: x[1])
             small = Scn.from_replay(sc.id, json.loads(json.dumps(sc.replay())))
             small.bursts = small.bursts[:k + 1]
@@ -864,7 +1097,7 @@ def run(ctx):
                 nontrivial.add(hash((tuple(map(tuple, sc.bursts)), tuple(sig))))
     ctx.coverage.update({
         "evaluations": len(bursts) + len(seqs), "distinct_nontrivial": len(nontrivial),
-        "rule": "seeded random scenarios: 2-4 users, 1-2 sessions each (+ optionally one session with a 2-slot send queue whose writer is stalled: slow-consumer eviction), 1-2 group/channel topics, a 'me' topic per user, optionally a p2p topic; BURST scenarios: 3-7 bursts in which ~70% of the sessions issue 1-3 requests each concurrently (sub/leave/unsub/pub/del-topic/del-user/disconnect) plus injected idle unloads, then a final burst re-subscribing to every group topic; SEQUENTIAL scenarios: 6-18 single requests over group topics (the model's alphabet), compared exactly with the extracted model; non-trivial = at least one request accepted (200); distinct by (requests, replies)",
+        "rule": "seeded random scenarios: 2-4 users, 1-2 sessions each (+ optionally one session with a 2-slot send queue whose writer is stalled: slow-consumer eviction), 1-2 group/channel topics, a 'me' topic per user, optionally a p2p topic; BURST scenarios: 3-7 bursts in which ~70% of the sessions issue 1-3 requests each concurrently (sub/leave/unsub/pub/del-topic/del-user/disconnect) plus injected idle unloads, then a final burst re-subscribing to every group topic; CHANNEL scenarios (gen_chan_scn_c14c): one channel-enabled topic whose users are partly group subscribers (grpXXX) and partly readers (chnXXX), optionally a plain group topic, 1-2 sessions with a 2-slot send queue; requests carry the name form (as=grp|chn): attach under either name, {leave} / {leave unsub} under either name, slow-consumer phases (writers stalled, the owner publishes 3-4 messages, the third broadcast drops the session), disconnects, idle unloads, a final re-subscribe under both names; SEQUENTIAL scenarios: 6-18 single requests over group topics with and without channel functionality, {leave} under either name, a channel name for a plain group now and then (the model's alphabet), compared exactly with the extracted model (replies, Session.subs, Topic.sessions, isChanSub flags, loaded/stored, terminated); non-trivial = at least one request accepted (200); distinct by (requests, replies)",
         "burst_scenarios": len(bursts), "sequential_scenarios": len(seqs), "concurrent_bursts": conc, "requests_issued": nreq,
         "traces_validated_against_impl": compared, "correspondence_mismatches": len(mism),
         "monitor_failures": {k: len(v) for k, v in fails.items()},
@@ -875,26 +1108,29 @@ def run(ctx):
         "corpus_scenarios": len([sc for sc in bursts if sc.id.startswith("c_")]),
         "theorem_status": {
             "full (every reachable configuration, any number of sessions/topics/instances, any interleaving)": [
-                "c14_inflight_never_low", "c14_reply_at_most_once", "c14_reply_conserved_stepwise", "c14_quiescent_symmetry",
-                "c14_symmetry_modulo_detach", "c14_attached_listed", "c14_terminated_detached", "c14_online_restored",
+                "c14_inflight_never_low", "c14_reply_at_most_one_more", "c14_reply_conserved_stepwise", "c14_quiescent_symmetry",
+                "c14_symmetry_modulo_detach", "c14_attached_listed", "c14_leave_detaches_both_sides", "c14_evict_detaches_both_sides",
+                "c14_terminated_detached", "c14_online_restored",
                 "c14_deleted_stays_deleted", "c14_deleted_refuses", "c14_deleted_load_fails", "c14_deleted_not_running",
                 "c14_deleted_sessions_detached"],
             "refuted by a witness schedule replayed on the real code": [
                 "c14_inflight_balance_statement (c14_inflight_balance_refuted, corpus/C14/01)",
                 "c14_reply_exactly_one_statement (c14_reply_exactly_one_refuted, corpus/C14/03)",
+                "c14_reply_at_most_once_statement (c14_reply_at_most_once_refuted, corpus/C14/12: a plain group left by a channel name is answered 404 and 200)",
                 "c14_no_stuck_statement (c14_no_stuck_refuted_lost_leave corpus/C14/02, c14_no_stuck_refuted_nil_done corpus/C14/01)"],
             "partial (on the executions that avoid exactly the refuting steps)": [
                 "c14_inflight_balance_partial (reach_safe: no load failure of an instance with a queued termination request)",
-                "c14_reply_exactly_one_partial, c14_reply_at_quiescence_partial (reachI_ok: none of the three steps of `lossy`)",
+                "c14_reply_exactly_one_partial, c14_reply_at_quiescence_partial (reachI_ok: none of the three steps of `lossy`, nor the step of `noisy`)",
+                "c14_reply_at_most_once_partial (reachI_nd: no `noisy` step = the topic takes a client's {leave} written with a channel name although it has no channel functionality)",
                 "c14_no_stuck_partial (reach_safe and no request in a queue of an instance whose goroutine is gone)"],
             "tested in support, NOT proved": [
                 "last clause of the property (shared data touched only under its lock / atomic): Go race detector on the burst scenarios, thorough tier",
-                "account deletion, p2p, 'me', channels, presence, bounded channel capacities: burst driver + laws only"]},
+                "account deletion, p2p, 'me', per-user records (online counters, who is a group subscriber / a reader: 303 / 403 refusals of {sub}), presence, bounded channel capacities: burst driver + laws only"]},
         "trusted_base": [
             "harness/overlay/server/zz_verif_c14_test.go: reader/writer goroutines standing in for the websocket loops (hdl_websock.go:39-145); quiescence = every goroutine parked in a receive/select + hub/topic queues empty + no request pending (runtime.Stack snapshot, as vQuiescent of the topic driver); a hang = every goroutine parked while a request is pending or a goroutine sits in a send/lock/semaphore, in 20 consecutive snapshots (no wall-clock guess); goroutines diagnosed as parked for ever are reported once and then ignored; direct field reads at quiescence",
             "harness/overlay/server/db/memverif: in-memory adapter (store contract modelled, not verified)",
             "tools/props/c14.py laws: python restatement of the property on the driver's output; laws with a circumstance in their name are the narrow forms of reproduced defects (findings/C14.md, KNOWN_FINDINGS.txt) - a failure outside these circumstances keeps the general name and is a violation",
-            "Lifecycle.v scope: group topics, owners delete, unbounded FIFO queues (real buffers: hub.join 256, hub.unreg 256, topic.reg/unreg 256, meta 64, exit 1, session.detach 64, session.stop 1): deadlocks that need a full buffer are outside the model; hub and topic handler bodies are atomic steps; account deletion, p2p, 'me', channels, presence are exercised by the driver only",
+            "Lifecycle.v scope: group topics with or without channel functionality addressed under either name (asChan / isChanSub, the name-form check of handleLeaveRequest after the detach, the 404 that does not return), owners delete, unbounded FIFO queues (real buffers: hub.join 256, hub.unreg 256, topic.reg/unreg 256, meta 64, exit 1, session.detach 64, session.stop 1): deadlocks that need a full buffer are outside the model; hub and topic handler bodies are atomic steps; account deletion, p2p, 'me', per-user records, presence are exercised by the driver only",
             "sequential schedules (one request per burst) are compared exactly with the extracted model; concurrent bursts are judged by the laws only (the model's interleavings are quantified over in the theorems, not enumerated by the run)",
             "last clause of the property (shared data only touched under its lock/atomic): NOT proved, no Gallina model expresses Go memory accesses; checked dynamically by the Go race detector in the thorough tier (testing in support)"],
     })
